@@ -24,6 +24,11 @@ import (
 	"strings"
 )
 
+var (
+	githubActionsDataReplacer     = strings.NewReplacer("%", "%25", "\r", "%0D", "\n", "%0A")
+	githubActionsPropertyReplacer = strings.NewReplacer("%", "%25", "\r", "%0D", "\n", "%0A", ":", "%3A", ",", "%2C")
+)
+
 func printAsText(writer io.Writer, fileAnnotations []FileAnnotation) error {
 	return printEachAnnotationOnNewLine(
 		writer,
@@ -225,7 +230,7 @@ func printFileAnnotationAsGithubActions(buffer *bytes.Buffer, f FileAnnotation) 
 		path = f.FileInfo().ExternalPath()
 	}
 	_, _ = buffer.WriteString("file=")
-	_, _ = buffer.WriteString(path)
+	_, _ = buffer.WriteString(escapeGithubActionsProperty(path))
 
 	// Everything else is optional.
 	if startLine := f.StartLine(); startLine > 0 {
@@ -250,13 +255,27 @@ func printFileAnnotationAsGithubActions(buffer *bytes.Buffer, f FileAnnotation) 
 	}
 
 	_, _ = buffer.WriteString("::")
-	_, _ = buffer.WriteString(f.Message())
+	_, _ = buffer.WriteString(escapeGithubActionsData(f.Message()))
 	if pluginName := f.PluginName(); pluginName != "" {
 		_, _ = buffer.WriteString(" (")
-		_, _ = buffer.WriteString(pluginName)
+		_, _ = buffer.WriteString(escapeGithubActionsData(pluginName))
 		_, _ = buffer.WriteRune(')')
 	}
 	return nil
+}
+
+// escapeGithubActionsData escapes the message of a workflow command.
+//
+// https://github.com/actions/toolkit/blob/main/packages/core/src/command.ts
+func escapeGithubActionsData(s string) string {
+	return githubActionsDataReplacer.Replace(s)
+}
+
+// escapeGithubActionsProperty escapes a property value of a workflow command.
+//
+// https://github.com/actions/toolkit/blob/main/packages/core/src/command.ts
+func escapeGithubActionsProperty(s string) string {
+	return githubActionsPropertyReplacer.Replace(s)
 }
 
 type externalFileAnnotation struct {
